@@ -19,7 +19,7 @@ def be_l1_ob(be, k, m, hd, sets, w=1, band=False, singular=False, split=None, ta
     if singular: defs["FORCE_SINGULAR"] = None
     ob = Ob(id=f"{tag}-{BNAME[be]}{k}_{m}_{hd}-w{w}-{idx}", harness="be_l1.c", defs=defs, units=L1_UNITS[be],
             unwind=max(k + m + 3, w * WB[be] + 3, 36), timeout=timeout, mem_gb=mem,
-            unwindset={"model_invert.0": 40, "axpy.0": 40, "ec_init_tables.0": 40, "ec_init_tables.1": 40, "ec_init_tables.2": 40},
+            unwindset={"gf_invert_matrix.0": k * k + 2, "gf_invert_matrix.1": k * k + 2, "model_invert.0": 40, "axpy.0": 40, "ec_init_tables.0": 40, "ec_init_tables.1": 40, "ec_init_tables.2": 40},
             sample={"symbolic": f"{k}x{w*WB[be]} payload bytes", "shape": [BNAME[be], k, m, hd], "erasure_sets": [list(s) for s in sets][:4], "n_sets": len(sets),
                     "bound_payload": w * WB[be], "oracle": "error-or-exact" if band else ("split (D6): free survivors vs model linear algebra" if "SPLIT" in defs else "original stripe")},
             targets={RS: ["liberasurecode_rs_vand_init", "make_systematic_matrix", "liberasurecode_rs_vand_encode", "liberasurecode_rs_vand_decode",
